@@ -1,6 +1,6 @@
 import Driver.Proto
 import ScrapliModel.Generated.Platforms
-namespace Driver
+namespace Driver.C17
 open Scrapli Scrapli.Rx Scrapli.Platform Scrapli.Gen.Platforms
 
 /-! Line protocol of property C17 (arguments after the leading `c17` token). Strings travel as hex
@@ -117,4 +117,4 @@ def handleC17 : List String → String
     | _, _ => "bad-op"
   | _ => "bad-op"
 
-end Driver
+end Driver.C17
